@@ -316,6 +316,12 @@ def run(ctx):
     from .c13 import rule_no_bom_sniffing
     rule_no_bom_sniffing(ctx, mir, rid="R02.7")
 
+    # ------------------------------------------------------------------ R02.8 (shared with C09 R09.4)
+    # what the parser reports as consumed decides which bytes are re-fed with the next chunk
+    from .c09 import rule_consumed_count
+    from ..smimpl import index as _index
+    rule_consumed_count(ctx, _index(), rid="R02.8")
+
     ctx.not_decided += ["invariance of the concatenation of text chunks (decoder arithmetic)", "equality of outputs/events between two schedules as such (relation between runs)"]
     return ("Mechanism clauses of chunk-boundary invariance: end-of-chunk behaviour of all %d automaton states incl. every look-ahead prefix, "
             "type-driven completeness of Align impls and of adjust_for_next_input, re-basing in break_on_end_of_input, flush-before-scope-change "
